@@ -17,8 +17,11 @@ for sid in ids:
         continue
     res = {}
     try:
-        for pid in meta.get("caught_by", [])[:2] or [meta.get("property")]:
-            p = subprocess.run([os.path.join(VERIF, "check"), pid, "--tier", "quick"], cwd=VERIF, capture_output=True, text=True)
+        own = [q for q in meta.get("caught_by", []) if q == meta.get("property")] or meta.get("caught_by", [])[:1] or [meta.get("property")]
+        for pid in own[:1]:
+            # quick-size sampling (no escalation): the weaker setting; a change caught here is caught with escalation too
+            p = subprocess.run([os.path.join(VERIF, "check"), pid, "--tier", "quick"], cwd=VERIF, capture_output=True, text=True,
+                               env=dict(os.environ, VERIF_NO_ESCALATE="1"))
             res[pid] = p.returncode
     finally:
         subprocess.run(["git", "-C", "/repo", "checkout", "--", "."], check=True)
